@@ -96,7 +96,6 @@ structure HeaderOK (h : Header) (names : List Name) : Prop where
   metaChar : -2147483648 ≤ h.metaChar ∧ h.metaChar < 2147483648
   skip : -2147483648 ≤ h.skip ∧ h.skip < 2147483648
   namesLen : (nameBlock names).length < 2147483648
-  nonempty : names ≠ []
   noNul : ∀ nm, nm ∈ names → ∀ b, b ∈ nm → b ≠ 0
 
 theorem rBytes_append (a rest : Bytes) : rBytes a.length (a ++ rest) = .ok (a, rest) := by
@@ -122,16 +121,25 @@ theorem rTabixHeader_w (h : Header) (names : List Name) (ok : HeaderOK h names) 
   simp only
   have hn0 : ¬ (((nameBlock names).length : Int) < 0) := by omega
   simp only [hn0, if_false, Int.toNat_natCast]
-  have hb : names.flatMap (fun nm => nm ++ [0]) = nameBlock names := rfl
-  rw [hb, rBytes_append]
-  simp only [nameBlock_getLast names ok.nonempty, ne_eq, not_true_eq_false, if_false]
-  rw [splitNul_nameBlock names ok.nonempty ok.noNul]
   have hf := ok.format
   have e1 : (((h.format : Int) + (if h.zeroBased then 65536 else 0)) % 256).toNat = h.format := by
     split <;> omega
   have e2 : decide ((((h.format : Int) + (if h.zeroBased then 65536 else 0)) / 65536) % 2 = 1) = h.zeroBased := by
     cases h.zeroBased <;> simp <;> omega
-  rw [e1, e2]
+  by_cases hne : names = []
+  · subst hne
+    simp only [nameBlock, List.flatMap_nil, List.length_nil, Int.natCast_zero, if_true, List.nil_append]
+    rw [e1, e2]
+  · have hpos : ¬ (((nameBlock names).length : Int) = 0) := by
+      have := nameBlock_ne_nil names hne
+      have : (nameBlock names).length ≠ 0 := fun h0 => this (List.eq_nil_of_length_eq_zero h0)
+      omega
+    simp only [hpos, if_false]
+    have hb : names.flatMap (fun nm => nm ++ [0]) = nameBlock names := rfl
+    rw [hb, rBytes_append]
+    simp only [nameBlock_getLast names hne, ne_eq, not_true_eq_false, if_false]
+    rw [splitNul_nameBlock names hne ok.noNul]
+    rw [e1, e2]
 
 /-! ### the whole file -/
 
@@ -141,8 +149,8 @@ structure TWF (t : TIndex) : Prop where
   hdr : HeaderOK t.hdr t.names
   count : t.names.length = t.idx.refs.length
 
-/-- `read_write` for tabix -/
-theorem readTabix_writeTabix (t : TIndex) (h : TWF t) : readTabix (writeTabix t) = .ok (some (normTabix t)) := by
+/-- `read_write` for tabix (also for an index without references and names) -/
+theorem readTabix_writeTabix (t : TIndex) (h : TWF t) : readTabix (writeTabix t) = .ok (normTabix t) := by
   unfold readTabix writeTabix
   have hm : rBytes 4 (tbiMagic ++ i32 (t.idx.refs.length : Int) ++ wTabixHeader t.hdr t.names ++ wIndex t.idx) =
       .ok (tbiMagic, i32 (t.idx.refs.length : Int) ++ (wTabixHeader t.hdr t.names ++ wIndex t.idx)) := by
@@ -151,14 +159,7 @@ theorem readTabix_writeTabix (t : TIndex) (h : TWF t) : readTabix (writeTabix t)
   simp only [ne_eq, not_true_eq_false, if_false]
   have hn := h.idx.nrefs
   rw [rI32_i32 _ (by omega) (by omega)]
-  have hne : t.idx.refs.length ≠ 0 := by
-    rw [← h.count]
-    have := h.hdr.nonempty
-    cases hnm : t.names with
-    | nil => exact absurd hnm this
-    | cons a b => simp
-  have h0 : ¬ ((t.idx.refs.length : Int) = 0) := by omega
-  simp only [h0, if_false]
+  simp only
   rw [rTabixHeader_w t.hdr t.names h.hdr]
   simp only
   have hc : ¬ ((t.names.length : Int) ≠ (t.idx.refs.length : Int)) := by rw [h.count]; simp
